@@ -13,6 +13,7 @@ import (
 	"os"
 	"os/exec"
 	"path/filepath"
+	"runtime/debug"
 	"sort"
 	"strconv"
 	"strings"
@@ -99,6 +100,9 @@ func (k knownFile) match(prop, assertion string) *knownFinding {
 }
 
 func main() {
+	// the collector's madvise traffic is very expensive in this VM: collect only near the limit
+	debug.SetGCPercent(-1)
+	debug.SetMemoryLimit(12 << 30)
 	if len(os.Args) < 3 {
 		fmt.Fprintln(os.Stderr, "usage: gosym check <ID> [--tier quick|thorough] | gosym replay <ID> <cex.json>")
 		os.Exit(2)
